@@ -12,7 +12,7 @@
 (* table (so no pruned point could have lowered its distance), for every          *)
 (* switching point.  PruneNum/PruneDen = 1/4 is the code's rule; other values are *)
 (* used to demonstrate that TLC finds an unsound pruning rule.                    *)
-EXTENDS FPSRef, TLC
+EXTENDS FPSRef, TLC, Json
 CONSTANTS N, Coords, FFNums, PruneNum, PruneDen,  \* full_fraction = k/128, k \in FFNums
           Staged     \* TRUE: points are placed one at a time by an action (needed for tlc -simulate with many points: TLC cannot
                      \* enumerate 16^7 initial states); FALSE: every placement is an initial state (exhaustive runs)
@@ -58,4 +58,7 @@ CellIsNearest == \A j \in Item : Len(sel) > 0 => D(j, sel[vloc[j]]) = haus[j]
 \* vacuity probes (expected to be VIOLATED: they show pruning and the sparse branch are exercised)
 NeverPrunes == lastActive = N
 NeverSparse == branch # "sparse"
+\* spec -> code: completed behaviours are printed (simulation configuration only) and their point sets, switching points and
+\* initial points are run through the real VoronoiFPS (validated by TraceFPS like any recorded fit)
+EmitDone == (placed = N /\ Len(sel) = N) => PrintT(ToJson([k |-> "F", P |-> P, ff |-> ff, sel |-> sel]))
 ===========================================================================
